@@ -222,6 +222,33 @@ func c24Render(fmtCode int, elems [][]c24Pair) string {
 	return strings.Join(es, sep)
 }
 
+// blank elements the grammar allows around the real ones: white-space-only or empty pieces between commas
+var c24LeadPad = []string{"", " ,", ",", "\t , ,", "\u00a0,", "  ,"}
+var c24TrailPad = []string{"", ", ", ",", ", , \t", ",\u3000", ",  "}
+
+// c24FmtPad splits "<fmt>" or "<fmt>p<lead><trail>".
+func c24FmtPad(s string) (fc int, lead, trail string) {
+	fc = int(s[0] - '0')
+	if len(s) == 4 && s[1] == 'p' {
+		lead = c24LeadPad[int(s[2]-'0')%len(c24LeadPad)]
+		trail = c24TrailPad[int(s[3]-'0')%len(c24TrailPad)]
+	}
+	return fc, lead, trail
+}
+
+// c24RenderPadded renders the elements ("-" = none) with blank elements in front and behind.
+func c24RenderPadded(fmtArg, spec string) (h string, elems [][]c24Pair, ok bool) {
+	fc, lead, trail := c24FmtPad(fmtArg)
+	if spec == "-" {
+		return lead + strings.TrimPrefix(trail, ","), nil, true
+	}
+	elems, ok = c24ParseSpec(spec)
+	if !ok {
+		return "", nil, false
+	}
+	return lead + c24Render(fc, elems) + trail, elems, true
+}
+
 func c24Spec(elems [][]c24Pair) string {
 	var es []string
 	for _, el := range elems {
@@ -494,9 +521,18 @@ func c24Gen(g *Gen) {
 		// ---- xfcc from the grammar
 		elems := c24GenElems(r)
 		fc := r.Intn(4)
-		lines = append(lines, fmt.Sprintf("xfccg %d %s", fc, c24Spec(elems)))
+		pad := func() string {
+			if r.Chance(45) {
+				return fmt.Sprintf("p%d%d", r.Intn(len(c24LeadPad)), r.Intn(len(c24TrailPad)))
+			}
+			return ""
+		}
+		lines = append(lines, fmt.Sprintf("xfccg %d%s %s", fc, pad(), c24Spec(elems)))
 		sel := Pick(r, []string{"first", "last"})
-		lines = append(lines, fmt.Sprintf("authg %s %d %s", sel, r.Intn(4), c24Spec(c24GenElems(r))))
+		lines = append(lines, fmt.Sprintf("authg %s %d%s %s", sel, r.Intn(4), pad(), c24Spec(c24GenElems(r))))
+		if r.Chance(8) { // nothing but blank elements
+			lines = append(lines, fmt.Sprintf("authg %s 0p%d%d -", Pick(r, []string{"first", "last"}), r.Intn(len(c24LeadPad)), r.Intn(len(c24TrailPad))))
+		}
 		h := c24Render(fc, elems)
 		// ---- mutations and noise
 		if r.Chance(70) {
@@ -710,13 +746,11 @@ func c24Exec(c *Case) {
 			c.Stat("xfcc-raw")
 			c.Out(l, c24ShowElems(vgirpc.ParseXfcc(UnXS(f[1]))))
 		case f[0] == "xfccg" && len(f) == 3:
-			elems, ok := c24ParseSpec(f[2])
+			h, elems, ok := c24RenderPadded(f[1], f[2])
 			if !ok {
 				c.Out(l, "err:bad-op")
 				continue
 			}
-			fc := int(f[1][0] - '0')
-			h := c24Render(fc, elems)
 			got := vgirpc.ParseXfcc(h)
 			want := c24Expected(elems)
 			// the grammar clause, independent of the Lean model: the parsed element list must equal the
@@ -801,25 +835,48 @@ func c24Exec(c *Case) {
 			c.Stat("auth-raw")
 			c.Out(l, c24ShowAuth(ac, err))
 		case f[0] == "authg" && len(f) == 4:
-			elems, ok := c24ParseSpec(f[3])
+			h, elems, ok := c24RenderPadded(f[2], f[3])
 			if !ok || (f[1] != "first" && f[1] != "last") {
 				c.Out(l, "err:bad-op")
 				continue
 			}
-			h := c24Render(int(f[2][0]-'0'), elems)
-			ac, err := c24XfccAuth(f[1], []string{h})
-			want := c24Expected(elems)
-			selE := want[0]
-			if f[1] == "last" {
-				selE = want[len(want)-1]
+			var hdrs []string
+			if h != "" {
+				hdrs = []string{h}
 			}
-			if err != nil {
+			ac, err := c24XfccAuth(f[1], hdrs)
+			want := c24Expected(elems)
+			switch {
+			case len(want) == 0:
+				// only blank elements: there is no client certificate to take an identity from
+				if err == nil {
+					cls := "xfcc-identity-from-blank-header"
+					if ac.Principal == "" {
+						cls = "xfcc-empty-principal-accepted"
+					}
+					c.Oracle(cls, fmt.Sprintf("%s: header %q holds no element but was authenticated as %q", l, h, ac.Principal))
+				}
+			case err != nil:
 				c.Oracle("xfcc-identity-rejected", fmt.Sprintf("%s: header %q rejected: %v", l, h, err))
-			} else if wantCN := c24RefCNOfSubject(selE.subject); ac.Principal != wantCN {
-				c.Oracle("xfcc-identity-not-cn-of-selected-subject", fmt.Sprintf("%s: header %q: principal %q, CN of the %s element's subject %q is %q", l, h, ac.Principal, f[1], selE.subject, wantCN))
+			default:
+				selE := want[0]
+				if f[1] == "last" {
+					selE = want[len(want)-1]
+				}
+				if wantCN := c24RefCNOfSubject(selE.subject); ac.Principal != wantCN {
+					cls := "xfcc-identity-not-cn-of-selected-subject"
+					if ac.Principal == "" {
+						cls = "xfcc-empty-principal-accepted"
+					}
+					c.Oracle(cls, fmt.Sprintf("%s: header %q: principal %q, CN of the %s non-blank element's subject %q is %q", l, h, ac.Principal, f[1], selE.subject, wantCN))
+				}
 			}
 			c.Stat("auth-grammar")
-			c.Out("auth "+f[1]+" h="+XS(h), c24ShowAuth(ac, err))
+			if len(hdrs) == 0 {
+				c.Out("auth "+f[1]+" h=", c24ShowAuth(ac, err))
+			} else {
+				c.Out("auth "+f[1]+" h="+XS(h), c24ShowAuth(ac, err))
+			}
 		default:
 			c.Out(l, "err:bad-op")
 		}
